@@ -113,13 +113,17 @@ def strip_markers(text):
     return "\n".join(l for l in text.split("\n") if not _MARKER_RE.match(l)).rstrip("\n")
 
 
-def run_chain(row, tmpdir, counter):
+def run_chain(row, tmpdir, counter, reuse=False):
+    """reuse: the program is written over the file of the previous program (a module edited and run again in the same
+    process), so the interpreter's line cache holds the old text when tbutils is asked first."""
     from boltons.tbutils import ExceptionInfo, TracebackInfo
     prog, exc = row["prog"], row["exc"]
-    modname = "c16chain_%d" % counter
+    modname = "c16chain_reused" if reuse else "c16chain_%d" % counter
     path = os.path.join(tmpdir, modname + ".py")
     with open(path, "w") as f:
         f.write(chain_source(prog, exc))
+    if reuse:
+        os.utime(path, (1500000000 + 3 * counter, 1500000000 + 3 * counter))
     spec = importlib.util.spec_from_file_location(modname, path)
     mod = importlib.util.module_from_spec(spec)
     sys.modules[modname] = mod
@@ -184,7 +188,7 @@ def main(tier, seed):
                     verdict.fail(sig, {"traceback": tb, "text": text_of(tb), "variant": label, "observed": detail})
             else:
                 n_chain += 1
-                for label, what, detail in run_chain(row, tmpdir, i):
+                for label, what, detail in run_chain(row, tmpdir, i) + [("rewritten-file:" + a, b, c) for a, b, c in run_chain(row, tmpdir, i, reuse=True)]:
                     sig = {"subject": "tbutils.ExceptionInfo", "op": "from_exc_info", "what": what.split(":")[0], "exc_kind": row["exc"]}
                     verdict.fail(sig, {"program": row["prog"], "exception_kind": row["exc"], "source": chain_source(row["prog"], row["exc"]), "observed": detail})
     finally:
